@@ -48,8 +48,15 @@ def run_check(pid, tier, seed):
         for short in verify:
             k = module.contracts[short]
             try:
-                functions.append(extract.info(k["where"]))
-                stats.append(eng.verify(short))
+                fn = None
+                if k.get("lemma_src"):
+                    # a lemma over the contracts: client code written in the contract file, verified modularly against the callees' contracts
+                    import ast as _ast, textwrap as _tw
+                    fn = _ast.parse(_tw.dedent(k["lemma_src"])).body[0]
+                    functions.append({"function": "lemma:" + short, "first_line": 0, "last_line": 0, "ast_sha256_16": extract.src_hash(fn), "statements": len(fn.body), "lemma": True})
+                else:
+                    functions.append(extract.info(k["where"]))
+                stats.append(eng.verify(short, fn))
                 if k.get("relational") or k.get("relational_converse"):
                     from pvc import relational
                     smt_obls += relational.pair_obligations(eng, short, k.get("relational") or {}, converse=k.get("relational_converse"))
